@@ -100,7 +100,11 @@ def comparison(ctx):
         for bi, si, place, rv in f.assigns():
             if rv["k"] == "aggregate" and rv.get("agg") == "adt" and rv["adt"] == "common::RequestError" and rv["variant"] == "SizeLimitExceeded":
                 sites.append(f.name)
-    ctx.ob("R04.1", "single-site", sites == [conn.PARSE_H], "RequestError::SizeLimitExceeded is constructed in: %s" % sites)
+    from .util import roots_of
+    roots = set()
+    for f in sites:
+        roots |= roots_of(ctx.facts, f) or {f}
+    ctx.ob("R04.1", "single-site", len(sites) == 1 and roots == {conn.PARSE_H}, "RequestError::SizeLimitExceeded is constructed in: %s (on behalf of %s)" % (sites, sorted(roots)))
 
 
 def line_limit(ctx):
